@@ -141,6 +141,74 @@ def make_foreign(table, d, full_max=1024):
 
 
 # ---------------------------------------------------------------------------------------------
+# container files made without the crate: header metadata as other implementations write it
+# ---------------------------------------------------------------------------------------------
+def avro_long(n):
+    z = (n << 1) ^ (n >> 63)
+    out = bytearray()
+    while True:
+        if z < 0x80:
+            out.append(z)
+            return bytes(out)
+        out.append((z & 0x7F) | 0x80)
+        z >>= 7
+
+
+def snappy_literal_stream(b):
+    """a legal raw snappy block (literals of <= 60 bytes) + BE CRC-32 of the uncompressed data"""
+    out = bytearray()
+    n = len(b)
+    while True:                      # preamble: base-128 varint
+        if n < 0x80:
+            out.append(n)
+            break
+        out.append((n & 0x7F) | 0x80)
+        n >>= 7
+    for i in range(0, len(b), 60):
+        c = b[i:i + 60]
+        out.append((len(c) - 1) << 2)
+        out += c
+    return bytes(out) + zlib.crc32(b).to_bytes(4, "big")
+
+
+def container(meta, values, compress):
+    sync = bytes(range(100, 116))
+    hdr = b"Obj\x01" + avro_long(len(meta))
+    for k, v in meta:
+        hdr += avro_long(len(k)) + k + avro_long(len(v)) + v
+    hdr += avro_long(0) + sync
+    raw = b"".join(avro_long(len(v)) + v for v in values)
+    payload = compress(raw)
+    return hdr + avro_long(len(values)) + avro_long(len(payload)) + payload + sync
+
+
+def make_files(d, values):
+    """-> ffile scenarios: files as a foreign writer (e.g. the Java implementation) lays them out"""
+    d = Path(d)
+    d.mkdir(parents=True, exist_ok=True)
+    schema = (b"avro.schema", b'"bytes"')
+    cases = [
+        ("null", "no avro.codec key", [schema], lambda r: r),
+        ("null", "avro.codec = null", [schema, (b"avro.codec", b"null")], lambda r: r),
+        ("deflate", "zlib raw level 6", [schema, (b"avro.codec", b"deflate")], lambda r: raw_deflate(r, 6)),
+        ("deflate", "zlib raw stored", [(b"avro.codec", b"deflate"), schema], lambda r: raw_deflate(r, 0)),
+        ("snappy", "literal-only block + BE CRC-32", [schema, (b"avro.codec", b"snappy")], snappy_literal_stream),
+        ("bzip2", "bz2, no level key", [schema, (b"avro.codec", b"bzip2")], lambda r: bz2.compress(r, 9)),
+        ("bzip2", "bz2 level 1, level key 1", [schema, (b"avro.codec", b"bzip2"), (b"avro.codec.compression_level", b"\x01")],
+         lambda r: bz2.compress(r, 1)),
+        ("xz", "xz, no level key", [schema, (b"avro.codec", b"xz")], lambda r: lzma.compress(r, format=lzma.FORMAT_XZ, preset=6)),
+        ("xz", "xz preset 0, level key 0", [(b"avro.codec.compression_level", b"\x00"), schema, (b"avro.codec", b"xz")],
+         lambda r: lzma.compress(r, format=lzma.FORMAT_XZ, preset=0)),
+    ]
+    scns = []
+    for i, (codec, what, meta, comp) in enumerate(cases):
+        f = d / f"foreign-{i}.avro"
+        f.write_bytes(container(meta, values, comp))
+        scns.append({"k": "ffile", "codec": codec, "what": what, "file": str(f), "values": [list(v) for v in values]})
+    return scns
+
+
+# ---------------------------------------------------------------------------------------------
 # reference decompressors over the library's bytes
 # ---------------------------------------------------------------------------------------------
 def ref_decompress(codec, data):
